@@ -136,7 +136,7 @@ def main():
             "kind_free_text": "in-process deterministic simulator: real pendulum code run by real threads under a seeded baton-passing scheduler (sys.settrace yield points), simulated clock (time_machine), fake file system/environment, nemesis for configuration flips and faults, cold quiescent re-execution as linearizability oracle, ddmin minimiser, JSON replay files",
         }],
         "checks": checks,
-        "notes": "fix: commits in /repo (unguarded defect repairs): %s. Known findings: /verif/known_findings.json. Every check runs against the compiled helpers rebuilt from /repo/rust (never a stale _pendulum*.so in /repo/src) with a share of the runs on the pure-Python helpers; one run in four draws its zones from all tzdata names (evidence key zone_swarm). Self-tests: selftest/determinism.py, selftest/sensitivity.py (123 planted changes), selftest/benign.py (12 behaviour-preserving refactorings)." % (", ".join(fixes) or "none"),
+        "notes": "fix: commits in /repo (unguarded defect repairs): %s. Known findings: /verif/known_findings.json. Every check runs against the compiled helpers rebuilt from /repo/rust (never a stale _pendulum*.so in /repo/src) with a share of the runs on the pure-Python helpers; one run in four draws its zones from all tzdata names (evidence key zone_swarm). Self-tests: selftest/determinism.py, selftest/sensitivity.py (123 planted changes), selftest/benign.py (13 behaviour-preserving refactorings)." % (", ".join(fixes) or "none"),
         "not_applicable": na,
     }
     with open(os.path.join(ROOT, "MANIFEST.json"), "w") as f:
